@@ -99,36 +99,34 @@ Example coinswap_nonvacuous : invb wit_s = true /\ query_pool wit_s 2 = Some (mk
 Proof. split; vm_compute; reflexivity. Qed.
 End CoinswapC12.
 
-(** ** token *)
+(** ** token.  The model carries a switch for the repair "token genesis validation rejects repeated
+    symbols, min units and contracts and a missing issue-fee token"; the tree under check has it. *)
 Module TokenC12.
 Import Genesis.Token Genesis.TokenProofs.
 
-Theorem token_export_validates : forall s : state, invb s = true -> validate (export s) = true.
+Theorem token_export_validates : forall s : state, invb s = true -> validate true (export s) = true.
 Proof. exact token_export_validates_lemma. Qed.
 Print Assumptions token_export_validates.
 
-(** as stated (every validated genesis imports) it FAILS: ValidateGenesis does not look for repeated
-    symbols / min units nor for the token of the issue fee, InitGenesis panics on them *)
-Theorem token_import_total_refuted : exists g : genesis, validate g = true /\ import g = None.
+(** the code as it was: ValidateGenesis did not look for repeated symbols / min units nor for the token
+    of the issue fee, InitGenesis panics on them (confirmed by the tampered-genesis probe of the harness) *)
+Theorem token_import_total_refuted : exists g : genesis, validate false g = true /\ import false g = None.
 Proof. exact token_import_total_refuted_lemma. Qed.
 Print Assumptions token_import_total_refuted.
 
-Theorem token_import_total_partial :
-  forall g : genesis,
-    validate g = true -> NoDup (map t_sym (g_tokens g)) -> NoDup (map t_mu (g_tokens g)) ->
-    In (fst (p_fee (g_prm g))) (map t_sym (g_tokens g)) ->
-    import g <> None.
-Proof. exact token_import_total_partial_lemma. Qed.
-Print Assumptions token_import_total_partial.
+(** the repaired code: importing ANY validated genesis does not panic *)
+Theorem token_import_total : forall g : genesis, validate true g = true -> import true g <> None.
+Proof. exact token_import_total_lemma. Qed.
+Print Assumptions token_import_total.
 
 Theorem token_export_fixpoint :
-  forall s : state, invb s = true -> exists s', import (export s) = Some s' /\ export s' = export s.
+  forall s : state, invb s = true -> exists s', import true (export s) = Some s' /\ export s' = export s.
 Proof. exact token_export_fixpoint_lemma. Qed.
 Print Assumptions token_export_fixpoint.
 
 (** tokens by symbol, by min unit, by owner; burned totals; parameters *)
 Theorem token_queries_preserved :
-  forall s : state, invb s = true -> exists s', import (export s) = Some s' /\ queries s' = queries s.
+  forall s : state, invb s = true -> exists s', import true (export s) = Some s' /\ queries s' = queries s.
 Proof. exact token_queries_preserved_lemma. Qed.
 Print Assumptions token_queries_preserved.
 
@@ -136,36 +134,33 @@ Example token_nonvacuous : invb wit_s = true /\ query_by_mu wit_s 2 = Some (wit_
 Proof. split; vm_compute; reflexivity. Qed.
 End TokenC12.
 
-(** ** nft *)
+(** ** nft.  The model carries a switch for the repair "nft genesis validation rejects repeated class
+    ids, repeated NFT ids within a class and a creator that is not an address"; the tree under check has it. *)
 Module NftC12.
 Import Genesis.Nft Genesis.NftProofs.
 
-Theorem nft_export_validates : forall s : state, invb s = true -> validate (export s) = true.
+Theorem nft_export_validates : forall s : state, invb s = true -> validate true (export s) = true.
 Proof. exact nft_export_validates_lemma. Qed.
 Print Assumptions nft_export_validates.
 
-(** as stated it FAILS: ValidateGenesis looks neither at the creator of a class nor for repeated
-    class / NFT ids; InitGenesis panics on each of them *)
-Theorem nft_import_total_refuted : exists g : genesis, validate g = true /\ import g = None.
+(** the code as it was (confirmed by the tampered-genesis probe of the harness) *)
+Theorem nft_import_total_refuted : exists g : genesis, validate false g = true /\ import false g = None.
 Proof. exact nft_import_total_refuted_lemma. Qed.
 Print Assumptions nft_import_total_refuted.
 
-Theorem nft_import_total_partial :
-  forall g : genesis,
-    validate g = true -> NoDup (map fst g) ->
-    (forall c, In c g -> 0 <= d_creator (c_info c) /\ sortedb lt1 (c_nfts c) = true) ->
-    import g <> None.
-Proof. exact nft_import_total_partial_lemma. Qed.
-Print Assumptions nft_import_total_partial.
+(** the repaired code: importing ANY validated genesis does not panic *)
+Theorem nft_import_total : forall g : genesis, validate true g = true -> import true g <> None.
+Proof. exact nft_import_total_lemma. Qed.
+Print Assumptions nft_import_total.
 
 Theorem nft_export_fixpoint :
-  forall s : state, invb s = true -> exists s', import (export s) = Some s' /\ export s' = export s.
+  forall s : state, invb s = true -> exists s', import true (export s) = Some s' /\ export s' = export s.
 Proof. exact nft_export_fixpoint_lemma. Qed.
 Print Assumptions nft_export_fixpoint.
 
 (** classes, NFTs with their owners, the supply of every class, every owner's list *)
 Theorem nft_queries_preserved :
-  forall s : state, invb s = true -> exists s', import (export s) = Some s' /\ queries s' = queries s.
+  forall s : state, invb s = true -> exists s', import true (export s) = Some s' /\ queries s' = queries s.
 Proof. exact nft_queries_preserved_lemma. Qed.
 Print Assumptions nft_queries_preserved.
 
@@ -215,10 +210,11 @@ Example random_nonvacuous :
 Proof. repeat split; vm_compute; try reflexivity; discriminate. Qed.
 End RandomC12.
 
-(** ** farm.  The model carries three switches for the three repairs committed in the repository
+(** ** farm.  The model carries four switches for the four repairs committed in the repository
     ([fix_stake]: MsgStake rejects a zero amount; [fix_rps]: the genesis validation accepts a reward
-    per share truncated to zero; [fix_q]: InitGenesis enqueues a pool ending at the import height);
-    the tree under check has all three ([Farm.fixed_*] = true).  [h] = the height the new chain
+    per share truncated to zero; [fix_q]: InitGenesis enqueues a pool ending at the import height;
+    [fix_v]: the genesis validation rejects a farmer of an unknown pool and parameters SetParams refuses);
+    the tree under check has all four ([Farm.fixed_*] = true).  [h] = the height the new chain
     starts with (= height of the old chain + 1). *)
 Module FarmC12.
 Import Genesis.Farm Genesis.FarmProofs.
@@ -226,43 +222,40 @@ Import Genesis.Farm Genesis.FarmProofs.
 (** the code as it was: (1) with zero stakes possible a farmer with nothing locked makes the export
     invalid; (2) even without them, a reward per share truncated to zero does *)
 Theorem farm_export_validates_refuted :
-  (exists h s, invb false h s = true /\ validate false (export s) = false)
-  /\ (exists h s, invb true h s = true /\ validate false (export s) = false).
+  (exists h s, invb false h s = true /\ validate false false (export s) = false)
+  /\ (exists h s, invb true h s = true /\ validate false false (export s) = false).
 Proof. exact farm_export_validates_refuted_lemma. Qed.
 Print Assumptions farm_export_validates_refuted.
 
 (** the code as it was: a running pool ending at the import height is missing from the new queue *)
 Theorem farm_queue_rebuilt_refuted :
-  exists h s s', invb true h s = true /\ import true false h (export s) = Some s'
+  exists h s s', invb true h s = true /\ import true false false h (export s) = Some s'
                  /\ queue s' <> queue_at h (pools s').
 Proof. exact farm_queue_rebuilt_refuted_lemma. Qed.
 Print Assumptions farm_queue_rebuilt_refuted.
 
-(** the repaired code *)
-Theorem farm_export_validates :
-  forall (h : Z) (s : state), invb true h s = true -> validate true (export s) = true.
-Proof. exact farm_export_validates_lemma. Qed.
-Print Assumptions farm_export_validates.
-
-(** as stated it FAILS (also after the repairs): a farmer whose pool is not in the genesis passes
-    ValidateGenesis and makes InitGenesis panic *)
+(** the code as it was: a farmer whose pool is not in the genesis passed ValidateGenesis and made
+    InitGenesis panic (confirmed by the tampered-genesis probe of the harness) *)
 Theorem farm_import_total_refuted :
-  exists h g, validate true g = true /\ import true true h g = None.
+  exists h g, validate true false g = true /\ import true true false h g = None.
 Proof. exact farm_import_total_refuted_lemma. Qed.
 Print Assumptions farm_import_total_refuted.
 
-Theorem farm_import_total_partial :
-  forall (h : Z) (g : genesis),
-    validate true g = true ->
-    (forall f, In f (g_farmers g) -> In (f_pool f) (map (fun pr => p_id (fst pr)) (g_pools g))) ->
-    fee_valid (g_prm g) = true ->
-    import true true h g <> None.
-Proof. exact farm_import_total_partial_lemma. Qed.
-Print Assumptions farm_import_total_partial.
+(** the repaired code *)
+Theorem farm_export_validates :
+  forall (h : Z) (s : state), invb true h s = true -> validate true true (export s) = true.
+Proof. exact farm_export_validates_lemma. Qed.
+Print Assumptions farm_export_validates.
+
+(** importing ANY validated genesis does not panic *)
+Theorem farm_import_total :
+  forall (h : Z) (g : genesis), validate true true g = true -> import true true true h g <> None.
+Proof. exact farm_import_total_lemma. Qed.
+Print Assumptions farm_import_total.
 
 Theorem farm_export_fixpoint :
   forall (h : Z) (s : state),
-    invb true h s = true -> exists s', import true true h (export s) = Some s' /\ export s' = export s.
+    invb true h s = true -> exists s', import true true true h (export s) = Some s' /\ export s' = export s.
 Proof. exact farm_export_fixpoint_lemma. Qed.
 Print Assumptions farm_export_fixpoint.
 
@@ -271,7 +264,7 @@ Print Assumptions farm_export_fixpoint.
 Theorem farm_queries_preserved :
   forall (h : Z) (s : state),
     invb true h s = true ->
-    exists s', import true true h (export s) = Some s' /\ queries s' = queries s
+    exists s', import true true true h (export s) = Some s' /\ queries s' = queries s
                /\ queue s' = queue_at h (pools s').
 Proof. exact farm_queries_preserved_lemma. Qed.
 Print Assumptions farm_queries_preserved.
